@@ -300,7 +300,11 @@ struct condition_variable {
         if (!sleepers.empty()) sleepers.erase(sleepers.begin());
         if (vs::active()) vs::S().emit(vs::K_NOTIFY_ONE, this, 0);
     }
-    // returns true when the wake-up was a time-out
+    // returns true when the wake-up was a time-out.
+    // Untimed wait: one wake step (notified or spurious, and the mutex is free) that re-acquires the mutex.
+    // Timed wait: the outcome (time-out / notified / spurious) is decided in a first step that does not
+    // need the mutex; the mutex is re-acquired in a second step (logged as K_LOCK on the mutex).  A time-out
+    // can therefore fire while another thread is inside its critical section, as with a real condition variable.
     bool sleep_wake(::std::unique_lock<vstd::mutex>& lk, bool timed)
     {
         vstd::mutex* m = lk.mutex();
@@ -309,16 +313,27 @@ struct condition_variable {
         m->owner = -1;
         sleepers.push_back(t);
         vs::S().emit(vs::K_CV_SLEEP, this, 0);
-        int c = vs::S().visible(vs::Pending{vs::K_CV_WAKE, this, [this, m, t, timed](int ch) {
+        if (!timed) {
+            vs::S().visible(vs::Pending{vs::K_CV_WAKE, this, [this, m, t](int ch) {
+                                            bool notified = ::std::find(sleepers.begin(), sleepers.end(), t) == sleepers.end();
+                                            return (notified || ch == vs::C_SPURIOUS) && m->owner == -1;
+                                        }});
+            sleepers.erase(::std::remove(sleepers.begin(), sleepers.end(), t), sleepers.end());
+            m->owner = t;
+            vs::S().emit(vs::K_CV_WAKE, this, 0);
+            return false;
+        }
+        int c = vs::S().visible(vs::Pending{vs::K_CV_WAKE, this, [this, t](int ch) {
                                                 bool notified = ::std::find(sleepers.begin(), sleepers.end(), t) == sleepers.end();
-                                                return (notified || ch == vs::C_SPURIOUS || (timed && ch == vs::C_TIMEOUT)) &&
-                                                    m->owner == -1;
+                                                return notified || ch == vs::C_SPURIOUS || ch == vs::C_TIMEOUT;
                                             }});
         bool notified = ::std::find(sleepers.begin(), sleepers.end(), t) == sleepers.end();
-        bool timeout = timed && !notified && c == vs::C_TIMEOUT;
+        bool timeout = !notified && c == vs::C_TIMEOUT;
         sleepers.erase(::std::remove(sleepers.begin(), sleepers.end(), t), sleepers.end());
-        m->owner = t;
         vs::S().emit(vs::K_CV_WAKE, this, timeout ? 1 : 0);
+        vs::S().visible(vs::Pending{vs::K_LOCK, m, [m](int) { return m->owner == -1; }});
+        m->owner = t;
+        vs::S().emit(vs::K_LOCK, m, 0);
         return timeout;
     }
     void wait(::std::unique_lock<vstd::mutex>& lk) { sleep_wake(lk, false); }
